@@ -59,8 +59,8 @@ macro "ul_simp" : tactic => `(tactic|
   simp only [setPc_pc, setPc_box, setPc_node, setPc_lock, setPc_fr, setPc_glist, setPc_hnext, setPc_wslot, setPc_bad,
     unlinkFirst_node, unlinkFirst_hnext, unlinkFirst_glist, unlinkFirst_box, unlinkFirst_lock, unlinkFirst_pc, unlinkFirst_fr,
     unlinkFirst_bad, unlinkFirst_wslot])
-macro "ul_auto" : tactic => `(tactic| (ul_simp; grind [updA, upd, Pc.isWait, Pc.fresh, Pc.pre, Pc.post, Pc.locks, Pc.pend,
-  unlinkNodes_next, unlinkNodes_prev, unlinkNodes_rest, unlinkNodes_other]))
+macro "ul_auto" : tactic => `(tactic| (ul_simp; grind (instances := 4000) (splits := 20) [updA, upd, Pc.isWait, Pc.fresh, Pc.pre, Pc.post, Pc.locks, Pc.pend,
+  unlinkNodes_next, unlinkNodes_prev, unlinkNodes_rest, unlinkNodes_other, MemOk, CancelPending]))
 
 /-- facts about the scan position of `wake_one` -/
 theorem Inv.oScan_facts {s : State} (hI : Inv s) {a : Actor} {f cur : Nat} {l0 seen : List Nat}
@@ -95,7 +95,7 @@ theorem Inv.oScan_facts {s : State} (hI : Inv s) {a : Actor} {f cur : Nat} {l0 s
       | nil => cases h3
       | cons z zs => have := h3.1; injection this with this; subst this; exact hnd.1 (by simp)
 
-set_option maxHeartbeats 4000000 in
+set_option maxHeartbeats 20000000 in
 /-- the take succeeds -/
 theorem Inv.oScanT {s : State} (hI : Inv s) {a : Actor} {f cur : Nat} {l0 seen : List Nat}
     (hp : s.pc a = .oScan f cur l0 seen) (hnt : (s.box cur).taken = false) :
@@ -120,6 +120,9 @@ theorem Inv.oScanT {s : State} (hI : Inv s) {a : Actor} {f cur : Nat} {l0 seen :
     · rfl
     · have := hI.rsmTaken cur hcur.1 hr; rw [hnt] at this; cases this
   have hpn := hI.pubNode cur hcur.1 hcur.2.1
+  have hcur1 := hcur.1
+  have hcur2 := hcur.2.1
+  have hcur3 := hcur.2.2.1
   -- chains of takers never contain a linked node of `f` other than through a canceller
   have hpre_glist : ∀ b m, m ∈ (s.pc b).pre → m ∈ s.glist f → s.pc b = .cLock m ∨ s.pc b = .cRemove m (s.node m).fut := by
     intro b m hm hg
@@ -128,7 +131,7 @@ theorem Inv.oScanT {s : State} (hI : Inv s) {a : Actor} {f cur : Nat} {l0 seen :
     rw [h1.2.2.1] at hc1; injection hc1 with hc1; subst hc1; exact hc2
   obtain ⟨kindC, kindF, lockOk, frWait, freshOk, freshUniq, freshVer, freshVerT, freshNode, wFreeTaken, preOk, postOk, ownOk, rsmTaken,
     freeTaken, pubNode, waiting, parked, listOk, scanOk, prevOk, placed, oScanOk, oNoneOk, aUnlockOk, aNextOk, aResumeOk, aFreeOk,
-    noRead, cTakeOk, allocUsed, noBad⟩ := hI
+    noRead, cTakeOk, cRemoveOk, allocUsed, noBad⟩ := hI
   have hmem : ∀ g m, MemOk s g m → m ≠ cur →
       MemOk (({ s.unlinkFirst f cur with box := upd (s.unlinkFirst f cur).box cur { (s.unlinkFirst f cur).box cur with taken := true, own := some a } }).setPc a
         (.oUnlock f (some cur) l0 seen)) g m := by
@@ -324,16 +327,16 @@ theorem Inv.oScanT {s : State} (hI : Inv s) {a : Actor} {f cur : Nat} {l0 seen :
     exact ⟨h1, h2, NChain.unlinkNodes hcn h3, h4, h5⟩
   case noRead => first | (ul_auto; done) | (trace "FAIL noRead"; sorry)
   case cTakeOk => first | (ul_auto; done) | (trace "FAIL cTakeOk"; sorry)
+  case cRemoveOk => first | (ul_auto; done) | (trace "FAIL cRemoveOk"; sorry)
   case allocUsed => first | (ul_auto; done) | (trace "FAIL allocUsed"; sorry)
   case noBad => first | (ul_auto; done) | (trace "FAIL noBad"; sorry)
 
-set_option maxHeartbeats 4000000 in
-/-- the take fails: the node is in the hands of a canceller; the scan goes on or ends -/
-theorem Inv.oScanF {s : State} (hI : Inv s) {a : Actor} {f cur : Nat} {l0 seen : List Nat}
-    {p : Pc} (hp : s.pc a = .oScan f cur l0 seen) (ht : (s.box cur).taken = true)
-    (hpf : (p = .oUnlock f none l0 (seen ++ [cur]) ∧ (s.node cur).next = none) ∨
-      (∃ y, p = .oScan f y l0 (seen ++ [cur]) ∧ (s.node cur).next = some y)) :
-    Inv ((s.unlinkFirst f cur).setPc a p) := by
+set_option maxHeartbeats 20000000 in
+/-- the take fails on the last node: the scan ends empty-handed -/
+theorem Inv.oScanFN {s : State} (hI : Inv s) {a : Actor} {f cur : Nat} {l0 seen : List Nat}
+    (hp : s.pc a = .oScan f cur l0 seen) (ht : (s.box cur).taken = true)
+    (hnone : (s.node cur).next = none) :
+    Inv ((s.unlinkFirst f cur).setPc a (.oUnlock f none l0 (seen ++ [cur]))) := by
   have hI' := hI
   obtain ⟨hlk, ⟨rest, hgl, hcr, hrnd, hers⟩, hcur, hcg, hnx⟩ := hI.oScan_facts hp
   obtain ⟨hhn, hl0⟩ := hI.oScanOk a f cur l0 seen hp
@@ -353,6 +356,17 @@ theorem Inv.oScanF {s : State} (hI : Inv s) {a : Actor} {f cur : Nat} {l0 seen :
     · rfl
     · have := hI.rsmTaken cur hcur.1 hr; rw [hnt] at this; cases this
   have hpn := hI.pubNode cur hcur.1 hcur.2.1
+  have hrest : rest = [] := by
+    have c1 := (hI.listOk f).1
+    rw [hgl] at c1
+    have := c1.2.2.head
+    rw [hnone] at this
+    cases rest with
+    | nil => rfl
+    | cons z zs => cases this
+  have hcur1 := hcur.1
+  have hcur2 := hcur.2.1
+  have hcur3 := hcur.2.2.1
   -- chains of takers never contain a linked node of `f` other than through a canceller
   have hpre_glist : ∀ b m, m ∈ (s.pc b).pre → m ∈ s.glist f → s.pc b = .cLock m ∨ s.pc b = .cRemove m (s.node m).fut := by
     intro b m hm hg
@@ -361,17 +375,272 @@ theorem Inv.oScanF {s : State} (hI : Inv s) {a : Actor} {f cur : Nat} {l0 seen :
     rw [h1.2.2.1] at hc1; injection hc1 with hc1; subst hc1; exact hc2
   obtain ⟨kindC, kindF, lockOk, frWait, freshOk, freshUniq, freshVer, freshVerT, freshNode, wFreeTaken, preOk, postOk, ownOk, rsmTaken,
     freeTaken, pubNode, waiting, parked, listOk, scanOk, prevOk, placed, oScanOk, oNoneOk, aUnlockOk, aNextOk, aResumeOk, aFreeOk,
-    noRead, cTakeOk, allocUsed, noBad⟩ := hI
-  have hpa : p.isWait = false ∧ p.fresh = none ∧ p.pre = [] ∧ p.post = none ∧ p.locks = some f ∧ p.pend = [] := by
-    rcases hpf with ⟨e, _⟩ | ⟨y, e, _⟩ <;> subst e <;> simp [Pc.isWait, Pc.fresh, Pc.pre, Pc.post, Pc.locks, Pc.pend]
-  have hpne : (∀ x, p ≠ .cLock x) ∧ (∀ x g, p ≠ .cRemove x g) ∧ (∀ x, p ≠ .cResume x) ∧ (∀ x, p ≠ .cFree x) ∧ p ≠ .idle := by
-    rcases hpf with ⟨e, _⟩ | ⟨y, e, _⟩ <;> subst e <;> simp
+    noRead, cTakeOk, cRemoveOk, allocUsed, noBad⟩ := hI
   obtain ⟨cc, hcc1, hcc2⟩ := hcur.2.2.2 ht
   have hcca : cc ≠ a := by
     intro e; subst e
     rcases hcc2 with h' | h' <;> (rw [hp] at h'; cases h')
   have hmem : ∀ g m, MemOk s g m → m ≠ cur →
-      MemOk ((s.unlinkFirst f cur).setPc a p) g m := by
+      MemOk ((s.unlinkFirst f cur).setPc a (.oUnlock f none l0 (seen ++ [cur]))) g m := by
+    intro g m hm hne
+    unfold MemOk CancelPending at *
+    ul_simp
+    have := unlinkNodes_rest s.node f cur m
+    grind [updA, upd]
+  constructor
+  case kindC => first | (ul_auto; done) | (trace "FAIL kindC"; sorry)
+  case kindF => first | (ul_auto; done) | (trace "FAIL kindF"; sorry)
+  case lockOk => first | (ul_auto; done) | (trace "FAIL lockOk"; sorry)
+  case frWait => first | (ul_auto; done) | (trace "FAIL frWait"; sorry)
+  case freshOk => first | (ul_auto; done) | (trace "FAIL freshOk"; sorry)
+  case freshUniq => first | (ul_auto; done) | (trace "FAIL freshUniq"; sorry)
+  case freshVer => first | (ul_auto; done) | (trace "FAIL freshVer"; sorry)
+  case freshVerT => first | (ul_auto; done) | (trace "FAIL freshVerT"; sorry)
+  case freshNode =>
+    intro h' f' v' n' ver' hh
+    have hpc : s.pc (.fr h') = .wLock f' v' n' ver' ∨ ∃ m, s.pc (.fr h') = .wLink f' v' n' ver' m := by
+      revert hh; ul_simp
+      have : Actor.fr h' ≠ a := fun e => hcl h' e.symm
+      simp [updA, this]
+    have hold := freshNode h' f' v' n' ver' hpc
+    have hfr : (s.pc (.fr h')).fresh = some n' := by rcases hpc with e | ⟨m, e⟩ <;> simp [e, Pc.fresh]
+    have h1 : n' ≠ cur := fun e => hcfresh h' (e ▸ hfr)
+    have h2 : (s.node cur).next ≠ some n' := fun e => hyfresh h' n' e hfr
+    ul_simp
+    rw [unlinkNodes_other _ _ _ _ h1 h2]
+    exact hold
+  case wFreeTaken => first | (ul_auto; done) | (trace "FAIL wFreeTaken"; sorry)
+  case preOk => first | (ul_auto; done) | (trace "FAIL preOk"; sorry)
+  case postOk => first | (ul_auto; done) | (trace "FAIL postOk"; sorry)
+  case ownOk => first | (ul_auto; done) | (trace "FAIL ownOk"; sorry)
+  case rsmTaken => first | (ul_auto; done) | (trace "FAIL rsmTaken"; sorry)
+  case freeTaken => first | (ul_auto; done) | (trace "FAIL freeTaken"; sorry)
+  case pubNode => first | (ul_auto; done) | (trace "FAIL pubNode"; sorry)
+  case waiting => first | (ul_auto; done) | (trace "FAIL waiting"; sorry)
+  case parked => first | (ul_auto; done) | (trace "FAIL parked"; sorry)
+  case listOk =>
+    intro g
+    obtain ⟨c1, c2, c3⟩ := listOk g
+    by_cases hg : g = f
+    · subst hg
+      rw [hgl] at c1 c2 c3
+      refine ⟨?_, ?_, ?_⟩
+      · ul_simp; simp only [upd_same, hers]; exact Chain.unlinkFirst c1 c2
+      · ul_simp; simp only [upd_same, hers]; exact hrnd
+      · intro m hm
+        have hm' : m ∈ rest := by revert hm; ul_simp; simp only [upd_same, hers]; exact id
+        exact hmem g m (c3 m (by simp [hm'])) (fun e => hcr (e ▸ hm'))
+    · refine ⟨?_, ?_, ?_⟩
+      · ul_simp; simp only [upd_other _ _ hg]
+        refine Chain.congr ?_ c1
+        intro m hm
+        have h1 : m ≠ cur := fun e => hcg g hg (e ▸ hm)
+        have h2 : (s.node cur).next ≠ some m := by
+          intro e
+          have hf1 := ((listOk f).2.2 m (hnx m e).1).2.2.1
+          have hf2 := (c3 m hm).2.2.1
+          exact hg (hf2.symm.trans hf1)
+        exact unlinkNodes_other _ _ _ _ h1 h2
+      · ul_simp; simp only [upd_other _ _ hg]; exact c2
+      · intro m hm
+        have hm' : m ∈ s.glist g := by revert hm; ul_simp; simp only [upd_other _ _ hg]; exact id
+        exact hmem g m (c3 m hm') (fun e => hcg g hg (e ▸ hm'))
+  case scanOk =>
+    intro b g hd tail cur' took pend skip l0' hb
+    have hba : b ≠ a := by intro e; subst e; revert hb; ul_simp; simp [updA]
+    have hb' : s.pc b = .aScan g hd tail cur' took pend skip l0' := by revert hb; ul_simp; simp [updA, hba]
+    obtain ⟨h1, h2, h3, h4, h5, h6, h7⟩ := scanOk b g hd tail cur' took pend skip l0' hb'
+    have hgf : g ≠ f := by
+      intro e; subst e
+      have := (lockOk g b).2 (by simp [hb', Pc.locks])
+      rw [hlk] at this; injection this with this; exact hba this.symm
+    have hnotin : ∀ m, m ∈ s.glist f → m ∉ took ++ pend := by
+      intro m hm e
+      rcases List.mem_append.mp e with e | e
+      · rcases hpre_glist b m (by simp [hb', Pc.pre, e]) hm with h' | h' <;> (rw [hb'] at h'; cases h')
+      · have hf1 := ((listOk f).2.2 m hm).2.2.1
+        exact hgf ((h6 m e).2.2.1.symm.trans hf1)
+    have hcn : cur ∉ took ++ pend := hnotin cur (by simp [hgl])
+    refine ⟨?_, ?_, h3, h4, h5, ?_, ?_⟩
+    · ul_simp; simp [upd, hgf, h1]
+    · ul_simp; exact NChain.unlinkNodes hcn h2
+    · intro m hm
+      exact hmem g m (h6 m hm) (fun e => hcn (by simp [← e, hm]))
+    · intro m hm
+      have h1' : m ≠ cur := fun e => hcn (by simp [← e, hm])
+      have h2' : (s.node cur).next ≠ some m := fun e => hnotin m (hnx m e).1 (by simp [hm])
+      ul_simp
+      rw [unlinkNodes_other _ _ _ _ h1' h2']
+      exact h7 m hm
+  case prevOk =>
+    intro m
+    have hold := prevOk m
+    have hr := unlinkNodes_rest s.node f cur m
+    have hpv := unlinkNodes_prev s.node f cur m
+    by_cases hmc : m = cur
+    · subst hmc
+      ul_simp
+      intro _ _ hprev
+      rw [hpv] at hprev
+      simp at hprev
+    · by_cases hmy : (s.node cur).next = some m
+      · have hmg := (hnx m hmy).1
+        have hmf := ((listOk f).2.2 m hmg).2.2.1
+        intro _ _ _
+        left
+        ul_simp
+        rw [hr.1, hmf]
+        simp only [upd_same, hers]
+        rw [hgl] at hmg
+        rcases List.mem_cons.mp hmg with e | e
+        · exact absurd e hmc
+        · exact e
+      · revert hold
+        ul_simp
+        simp only [hpv, hr.1, hmc, hmy, if_false]
+        intro hold ha hpub hprev
+        have ha' : (s.box m).alloc = true := by revert ha; simp [upd, hmc]
+        have hpub' : (s.box m).pub = true := by revert hpub; simp [upd, hmc]
+        rcases hold ha' hpub' hprev with h1 | ⟨b, h1, h2⟩ | ⟨c, h1, h2⟩
+        · left
+          by_cases hf : (s.node m).fut = f
+          · rw [hf] at h1 ⊢
+            simp only [upd_same, hers]
+            rw [hgl] at h1
+            rcases List.mem_cons.mp h1 with e | e
+            · exact absurd e hmc
+            · exact e
+          · simp [upd, hf, h1]
+        · right; left
+          have hba : b ≠ a := by
+            intro e; subst e
+            rw [hp] at h2; simp [Pc.pend] at h2
+          exact ⟨b, h1, by simp [updA, hba, h2]⟩
+        · right; right
+          have hca : c ≠ a := by
+            intro e; subst e
+            rcases h2 with h2 | h2 <;> (rw [hp] at h2; cases h2)
+          exact ⟨c, by simp [upd, hmc, h1], by simp [updA, hca, h2]⟩
+  case placed => first | (ul_auto; done) | (trace "FAIL placed"; sorry)
+  case oScanOk => first | (ul_auto; done) | (trace "FAIL oScanOk"; sorry)
+  case oNoneOk =>
+    intro b g l0' seen' hb
+    by_cases hba : b = a
+    · subst hba
+      have hb' : Pc.oUnlock f none l0 (seen ++ [cur]) = .oUnlock g none l0' seen' := by
+        revert hb; ul_simp; simp [updA]
+      injection hb' with e1 e2 e3 e4
+      subst e1 e3 e4
+      ul_simp
+      simp only [upd_same, hers, hrest, hnone]
+      refine ⟨trivial, trivial, ?_⟩
+      rw [hl0, hgl, hrest]
+    · have hb' : s.pc b = .oUnlock g none l0' seen' := by revert hb; ul_simp; simp [updA, hba]
+      obtain ⟨h1, h2, h3⟩ := oNoneOk b g l0' seen' hb'
+      have hgf : g ≠ f := by
+        intro e; subst e
+        have := (lockOk g b).2 (by simp [hb', Pc.locks])
+        rw [hlk] at this; injection this with this; exact hba this.symm
+      ul_simp
+      simp only [upd_other _ _ hgf]
+      exact ⟨h1, h2, h3⟩
+  case aUnlockOk =>
+    intro b g hd took skip l0' hb
+    have hba : b ≠ a := by intro e; subst e; revert hb; ul_simp; simp [updA]
+    have hb' : s.pc b = .aUnlock g hd took skip l0' := by revert hb; ul_simp; simp [updA, hba]
+    obtain ⟨h1, h2, h3⟩ := aUnlockOk b g hd took skip l0' hb'
+    have hgf : g ≠ f := by
+      intro e; subst e
+      have := (lockOk g b).2 (by simp [hb', Pc.locks])
+      rw [hlk] at this; injection this with this; exact hba this.symm
+    have hcn : cur ∉ took := by
+      intro e
+      rcases hpre_glist b cur (by simp [hb', Pc.pre, e]) (by simp [hgl]) with h' | h' <;> (rw [hb'] at h'; cases h')
+    ul_simp
+    exact ⟨by simp [upd, hgf, h1], NChain.unlinkNodes hcn h2, h3⟩
+  case aNextOk =>
+    intro b m k took rs hb
+    have hba : b ≠ a := by intro e; subst e; revert hb; ul_simp; simp [updA]
+    have hb' : s.pc b = .aNext m k took rs := by revert hb; ul_simp; simp [updA, hba]
+    obtain ⟨h1, h2, h3, h4⟩ := aNextOk b m k took rs hb'
+    have hcn : cur ∉ took.drop k := by
+      intro e
+      rcases hpre_glist b cur (by simp [hb', Pc.pre, ← h1, e]) (by simp [hgl]) with h' | h' <;> (rw [hb'] at h'; cases h')
+    ul_simp
+    exact ⟨h1, h2, NChain.unlinkNodes hcn h3, h4⟩
+  case aResumeOk =>
+    intro b m nx k took rs hb
+    have hba : b ≠ a := by intro e; subst e; revert hb; ul_simp; simp [updA]
+    have hb' : s.pc b = .aResume m nx k took rs := by revert hb; ul_simp; simp [updA, hba]
+    obtain ⟨h1, h2, ⟨rest', h3, h3'⟩, h4⟩ := aResumeOk b m nx k took rs hb'
+    have hcn : cur ∉ rest' := by
+      intro e
+      rcases hpre_glist b cur (by simp [hb', Pc.pre, ← h1, h3, e]) (by simp [hgl]) with h' | h' <;> (rw [hb'] at h'; cases h')
+    ul_simp
+    exact ⟨h1, h2, ⟨rest', h3, NChain.unlinkNodes hcn h3'⟩, h4⟩
+  case aFreeOk =>
+    intro b m nx k took rs hb
+    have hba : b ≠ a := by intro e; subst e; revert hb; ul_simp; simp [updA]
+    have hb' : s.pc b = .aFree m nx k took rs := by revert hb; ul_simp; simp [updA, hba]
+    obtain ⟨h1, h2, h3, h4, h5⟩ := aFreeOk b m nx k took rs hb'
+    have hcn : cur ∉ took.drop (k + 1) := by
+      intro e
+      rcases hpre_glist b cur (by simp [hb', Pc.pre, h1, e]) (by simp [hgl]) with h' | h' <;> (rw [hb'] at h'; cases h')
+    ul_simp
+    exact ⟨h1, h2, NChain.unlinkNodes hcn h3, h4, h5⟩
+  case noRead => first | (ul_auto; done) | (trace "FAIL noRead"; sorry)
+  case cTakeOk => first | (ul_auto; done) | (trace "FAIL cTakeOk"; sorry)
+  case cRemoveOk => first | (ul_auto; done) | (trace "FAIL cRemoveOk"; sorry)
+  case allocUsed => first | (ul_auto; done) | (trace "FAIL allocUsed"; sorry)
+  case noBad => first | (ul_auto; done) | (trace "FAIL noBad"; sorry)
+
+set_option maxHeartbeats 20000000 in
+/-- the take fails, the scan goes on with the saved `next` -/
+theorem Inv.oScanFS {s : State} (hI : Inv s) {a : Actor} {f cur : Nat} {l0 seen : List Nat}
+    (hp : s.pc a = .oScan f cur l0 seen) (ht : (s.box cur).taken = true)
+    {y : Nat} {seen' : List Nat} (hsome : (s.node cur).next = some y) (hseen : seen' = seen ++ [cur]) :
+    Inv ((s.unlinkFirst f cur).setPc a (.oScan f y l0 seen')) := by
+  have hI' := hI
+  obtain ⟨hlk, ⟨rest, hgl, hcr, hrnd, hers⟩, hcur, hcg, hnx⟩ := hI.oScan_facts hp
+  obtain ⟨hhn, hl0⟩ := hI.oScanOk a f cur l0 seen hp
+  have hcl : ∀ h, a ≠ .fr h := by
+    intro h e; subst e
+    rcases hI.kindF h with h1 | h1 <;> simp [hp, Pc.isWait] at h1
+  have hcfresh : ∀ h, (s.pc (.fr h)).fresh ≠ some cur := by
+    intro h e
+    have := (hI.freshOk h cur e).2.1
+    rw [hcur.2.1] at this; cases this
+  have hyfresh : ∀ h y, (s.node cur).next = some y → (s.pc (.fr h)).fresh ≠ some y := by
+    intro h y hy e
+    exact (hI.freshOk h y e).2.2.1 f (hnx y hy).1
+  have hrsm : (s.box cur).taken = false → (s.box cur).rsm = false := by
+    intro hnt
+    cases hr : (s.box cur).rsm
+    · rfl
+    · have := hI.rsmTaken cur hcur.1 hr; rw [hnt] at this; cases this
+  have hpn := hI.pubNode cur hcur.1 hcur.2.1
+  have hyg := (hnx y hsome).1
+  have hyc := (hnx y hsome).2
+  have hyf : (s.node y).fut = f := ((hI.listOk f).2.2 y hyg).2.2.1
+  have hyr : y ∈ rest := by rw [hgl] at hyg; rcases List.mem_cons.mp hyg with e | e; exact absurd e hyc; exact e
+  have hcur1 := hcur.1
+  have hcur2 := hcur.2.1
+  have hcur3 := hcur.2.2.1
+  -- chains of takers never contain a linked node of `f` other than through a canceller
+  have hpre_glist : ∀ b m, m ∈ (s.pc b).pre → m ∈ s.glist f → s.pc b = .cLock m ∨ s.pc b = .cRemove m (s.node m).fut := by
+    intro b m hm hg
+    have h1 := hI.preOk b m hm
+    obtain ⟨c, hc1, hc2⟩ := ((hI.listOk f).2.2 m hg).2.2.2 h1.2.1
+    rw [h1.2.2.1] at hc1; injection hc1 with hc1; subst hc1; exact hc2
+  obtain ⟨kindC, kindF, lockOk, frWait, freshOk, freshUniq, freshVer, freshVerT, freshNode, wFreeTaken, preOk, postOk, ownOk, rsmTaken,
+    freeTaken, pubNode, waiting, parked, listOk, scanOk, prevOk, placed, oScanOk, oNoneOk, aUnlockOk, aNextOk, aResumeOk, aFreeOk,
+    noRead, cTakeOk, cRemoveOk, allocUsed, noBad⟩ := hI
+  obtain ⟨cc, hcc1, hcc2⟩ := hcur.2.2.2 ht
+  have hcca : cc ≠ a := by
+    intro e; subst e
+    rcases hcc2 with h' | h' <;> (rw [hp] at h'; cases h')
+  have hmem : ∀ g m, MemOk s g m → m ≠ cur →
+      MemOk ((s.unlinkFirst f cur).setPc a (.oScan f y l0 seen')) g m := by
     intro g m hm hne
     unfold MemOk CancelPending at *
     ul_simp
@@ -560,6 +829,7 @@ theorem Inv.oScanF {s : State} (hI : Inv s) {a : Actor} {f cur : Nat} {l0 seen :
     exact ⟨h1, h2, NChain.unlinkNodes hcn h3, h4, h5⟩
   case noRead => first | (ul_auto; done) | (trace "FAIL noRead"; sorry)
   case cTakeOk => first | (ul_auto; done) | (trace "FAIL cTakeOk"; sorry)
+  case cRemoveOk => first | (ul_auto; done) | (trace "FAIL cRemoveOk"; sorry)
   case allocUsed => first | (ul_auto; done) | (trace "FAIL allocUsed"; sorry)
   case noBad => first | (ul_auto; done) | (trace "FAIL noBad"; sorry)
 
